@@ -230,6 +230,24 @@ impl Monitor for C03 {
         let p1 = prefix(style, c.n, huge, &mut rng);
         let other = rng.below(6);
         let p2 = prefix(if other == style { (style + 1) % 6 } else { other }, c.n, huge, &mut rng);
+        // the exact scalar never frees what a view has computed: the two prefixes together are cut (at
+        // the front) to what about 1.5 million exact operations pay for - thousands of values for the
+        // O(1) and small-window views, a few windows for NET at N = 100.  Long histories of the
+        // expensive views run at f64.
+        let (p1, p2) = if exact {
+            let nn = c.n.max(1);
+            let per_update = match c.name {
+                "NoiseEliminationTechnology" => 4 * nn * nn,
+                "CorrelationTrendIndicator" | "CenterOfGravity" | "Rsi" | "MyRSI" | "PolarizedFractalEfficiency" => 6 * nn,
+                "Min" | "Max" | "HLNormalizer" => nn + 4,
+                _ => 8,
+            };
+            let each = (1_500_000 / per_update / 2).max(3 * nn + 8);
+            let cut = |p: Vec<f64>| if p.len() > each { p[p.len() - each..].to_vec() } else { p };
+            (cut(p1), cut(p2))
+        } else {
+            (p1, p2)
+        };
         let slen = c.k + rng.usize(1, 3 * c.n + 10);
         let suffix = gen::gen(sclass, c.n, slen, &mut rng);
         out.key(mix(hash_str(&format!("{}{}", c.spec.show(), exact)), mix(gen::hash_f64s(&p1), mix(gen::hash_f64s(&p2), gen::hash_f64s(&suffix)))));
@@ -256,7 +274,8 @@ impl Monitor for C03 {
             ));
         }
         if exact {
-            run::<Xq>(&c, &p1, &p2, &suffix, out)
+            run::<Xq>(&c, &p1, &p2, &suffix, out);
+            out.maxi(&format!("exact_scalar_arena_entries_alive_at_once/{}", c.name), crate::xq::peak() as f64);
         } else {
             run::<f64>(&c, &p1, &p2, &suffix, out)
         }
